@@ -30,6 +30,7 @@ CONSTANTS
     STypes,     \* script types of unspent outputs offered: subset of OwnSTypes \cup ForeignSTypes
     UAmts,      \* amount classes of unspent outputs
     MaxUnsp,
+    VOffs,      \* output-index classes of listed outputs inside their previous transaction: subset of 0..255
     DTypes,     \* destination address types
     DAmts,      \* destination amount classes
     MaxDest,
@@ -223,13 +224,16 @@ ChooseCfg ==
     /\ phase' = "unsp"
     /\ UNCHANGED <<unsp, dests, opts, res, raw, rres, unsp2, res2>>
 
-\* previous transactions are numbered 1, 2, ...; a new line either opens a new one or is the next output of the last one
+\* previous transactions are numbered 1, 2, ...; a new line either opens a new one (output index off) or is a later output
+\* of the last one (off outputs further).  The outputs of a previous transaction that are NOT listed are decoys of the
+\* concretiser (some pay to keys of the wallet, some do not): a listed index read wrongly (balance/unspent.txt spells it
+\* %03d: 010, 008, 100 ...) lands on an unlisted outpoint or on no spendable one, which OnlyListedInputs / SufficientWrites see.
 AddUnspent ==
     /\ phase = "unsp"
-    /\ \E st \in STypes, am \in UAmts, same \in BOOLEAN :
+    /\ \E st \in STypes, am \in UAmts, same \in BOOLEAN, off \in VOffs :
           /\ same => unsp # <<>>
           /\ LET last == IF unsp = <<>> THEN [t |-> 0, v |-> 0] ELSE unsp[Len(unsp)]
-                 op == IF same THEN [t |-> last.t, v |-> last.v + 1] ELSE [t |-> last.t + 1, v |-> 0]
+                 op == IF same THEN [t |-> last.t, v |-> last.v + 1 + off] ELSE [t |-> last.t + 1, v |-> off]
              IN  unsp' = Append(unsp, [st |-> st, amt |-> AmtOf(am), t |-> op.t, v |-> op.v])
     /\ phase' = IF Len(unsp') < plan.nu THEN "unsp" ELSE IF plan.raw = "none" THEN "dest" ELSE "raw"
     /\ UNCHANGED <<cfg, plan, dests, opts, res, raw, rres, unsp2, res2>>
